@@ -106,6 +106,9 @@ func (t *VT) run(script string) (string, error) {
 			var v []byte
 			v, err = stub.GetState(arg(1))
 			reads = append(reads, fmt.Sprintf("%x", v))
+		case "sym":
+			// the configuration in force for this invocation (reported like a value read)
+			reads = append(reads, fmt.Sprintf("%x", []byte(t.ContractConfig().GetSymbol())))
 		case "id":
 			// the transaction the context belongs to (reported like a value read)
 			reads = append(reads, fmt.Sprintf("%x", []byte(stub.GetTxID())))
